@@ -957,6 +957,13 @@ class Scores:
                 size=self.nb_hard_neg, n=nb_hard_neg, p=1.0 / self.nb_hard_neg
             )
 
+            # Single pass sampling can select no score at all. As above, we try to have
+            # at least one hard positive and negative sample.
+            if nb_hard_pos > 0 and np.sum(nb_pos_selected) == 0:
+                nb_pos_selected[np.random.randint(self.nb_hard_pos)] = 1
+            if nb_hard_neg > 0 and np.sum(nb_neg_selected) == 0:
+                nb_neg_selected[np.random.randint(self.nb_hard_neg)] = 1
+
             pos_idx = np.repeat(np.arange(self.nb_hard_pos), nb_pos_selected)
             neg_idx = np.repeat(np.arange(self.nb_hard_neg), nb_neg_selected)
         else:
